@@ -113,6 +113,24 @@ func Gen(t *rapid.T) *Case {
 	}
 	nt := len(c.Types)
 	g := &genState{subs: map[int][][2]int{}}
+	// in 1 of 5 histories a crowd of 9-40 registrations on one type comes
+	// first, so that small-size thresholds (8, 16, 32 handlers) are crossed
+	// and later removals act on a long list
+	if rapid.IntRange(0, 4).Draw(t, "crowd") == 0 {
+		ct := rapid.IntRange(0, nt-1).Draw(t, "crowdType")
+		n := rapid.SampledFrom([]int{9, 16, 17, 33, 40}).Draw(t, "crowdSize")
+		for i := 0; i < n; i++ {
+			o := Op{K: "sub", T: ct, Slot: 2 + i%(busmodel.K-2), Ctx: i%3 == 0}
+			o.Once = rapid.IntRange(0, 5).Draw(t, "crowdOnce") == 0
+			o.Filter = rapid.SampledFrom(filters).Draw(t, "crowdFilter")
+			cc := 0
+			if o.Ctx {
+				cc = 1
+			}
+			g.subs[o.T] = append(g.subs[o.T], [2]int{o.Slot, cc})
+			c.Ops = append(c.Ops, o)
+		}
+	}
 	nops := rapid.IntRange(1, 40).Draw(t, "nops")
 	for i := 0; i < nops; i++ {
 		c.Ops = append(c.Ops, genOp(t, nt, g))
